@@ -311,6 +311,11 @@ def run_job(cfg):
         d["setting_reads"] = sorted(tr.reads)
         d["rng_order"] = list(tr.order)
         return d
+    if cfg.get("prelude"):
+        # a DIFFERENT run first, in this same process: whatever it leaves behind (module-level registries, caches, default
+        # dtypes, generator states) must not change the seeded run that follows
+        run_config({**cfg["prelude"], "ambient": cfg.get("ambient")})
+        return run_config({k: v for k, v in cfg.items() if k != "prelude"})
     if cfg.get("repeat"):
         model = make_model(cfg.get("model", "vec")) if cfg.get("reuse_model") else None
         seq = []
